@@ -27,6 +27,8 @@ INTS = [False, "yon", "wos", "wod", "woi", "was", "wad", "wai", "whe", "why", "w
 BOOLS = ["neg", "pas", "perf", "prog", "contr", "exc"]
 PANEL = ["be", "have", "do", "can", "will", "go", "eat", "try", "stop", "love", "watch", "cut", "pay", "see"]
 CLOSED = ["be", "have", "do", "can", "will", "shall", "may", "must"]
+MODALS = ["can", "will", "shall", "may", "must"]
+INT_GROUPS = [["yon", "how", "why", "muc"], ["wos", "was"], ["wod", "wad"], ["woi", "wai", "whe", "whn"], ["tag"]]
 DETS = ["the", "this", "that"]
 
 
@@ -55,7 +57,8 @@ def data():
     for w, e in lex.items():
         if "V" in e and e["V"].get("tab") in rules["conjugation"] and re.fullmatch(r"[a-z]+", w):
             p = TR.paradigm(w, rules["conjugation"][e["V"]["tab"]])
-            if p is not None:
+            # a form that is the empty string (`ought`: b = "") gives an empty token that doFormat deletes: outside G
+            if p is not None and "" not in [p["b"], p["pp"], p["pr"]] + (p["p"] or []) + (p["ps"] or []):
                 verbs[w] = p
     _DATA["verbs"] = verbs
     bytab = {}
@@ -284,33 +287,47 @@ def uncontract(w):
     return UNCONTR.get(w, [])
 
 
+def is_verbish(t):
+    return t[0] == "V" or (t[0] == "Q" and isinstance(t[2], str) and t[2].startswith("[["))
+
+
 def oracle_c04(spec, typ, notation, ans, raw):
-    """returns a list of (clause, detail): the clauses of C04 the real output violates"""
-    out = []
+    """returns a list of (clause, detail): the clauses of C04 the real output violates.
+    Independent of the model: it only reads the tokens the library produced, the specification, and DATA of the
+    repository (rules-en.json, lexicon tables, the literal contraction table and preposition lists)."""
     if "err" in ans:
         return [("exception:" + ans["err"], "the realization raised")]
+    out = []
     D = data()
     contr_tbl = D["contr"]
+    contr_vals = set(contr_tbl.values()) | {"can't"}
     i = typ.get("int") or None
     words = [word_of(r[2]) for r in raw]
     kinds = [r[0] for r in raw]
     lemmas = [r[1] for r in raw]
     n = len(raw)
-    # ---- cut the tag off: V [not] Pro at the very end
+
+    def own_form(k):
+        if kinds[k] == "V" and (lemmas[k] in D["verbs"] or lemmas[k] in D["consts"]["closedParadigms"]):
+            f = forms_of(lemmas[k])
+            return words[k] in [f["b"], f["pp"], f["pr"]] + (f["p"] or []) + (f["ps"] or [])
+        return False
+    # ---- the tag (V [not] Pro at the very end) is not part of the clause the property describes
     main_end = n
     if i == "tag":
         k = n - 1
-        while k >= 0 and not (kinds[k] == "V" or (kinds[k] == "Q" and lemmas[k] in ("cannot",)) or
-                              (kinds[k] == "Q" and raw[k][2].startswith("[["))):
+        while k >= 0 and not (kinds[k] == "V" or (kinds[k] == "Q" and (lemmas[k] == "cannot" or raw[k][2].startswith("[[")))):
             k -= 1
         if k <= 0:
             return [("tag_shape", "no auxiliary found in the tag")]
         main_end = k
-    # ---- contraction: exactly the table
+    # ---- contraction: exactly the table, only with contr (the tag is always contracted)
+    spec_words = set(x for a in [spec["subj"], spec.get("obj")] + [q["arg"] for q in spec.get("pps", [])] if a
+                     for c in arg_words(a) for x in c)
     for k in range(n):
         w = words[k]
-        if "'" in w and not w.endswith("'s") or w in ("won't", "can't"):
-            if w not in contr_tbl.values() and w != "can't":
+        if "'" in w and not own_form(k) and w not in spec_words:
+            if w not in contr_vals:
                 out.append(("contraction_exact", "%r is not a contraction of the table" % w))
             elif not typ.get("contr") and k < main_end:
                 out.append(("contraction_exact", "%r produced without contr" % w))
@@ -320,58 +337,41 @@ def oracle_c04(spec, typ, notation, ans, raw):
             if a + "+" + b in contr_tbl or a == "cannot":
                 out.append(("contraction_exact", "%s %s left uncontracted" % (a, b)))
                 break
-    # ---- expand contractions so that the verb group can be read
-    toks = []          # (kind, lemma, word, index)
+    # ---- read the clause: expand the contractions
+    toks = []          # (kind, lemma, word | list of candidate words, raw index)
     for k in range(main_end):
         w = words[k]
         if not w:
             continue
-        if kinds[k] == "V" and w in contr_tbl.values() and w.endswith("n't"):
+        if own_form(k):
+            toks.append((kinds[k], lemmas[k], w, k))
+        elif kinds[k] == "V" and w in contr_vals and w.endswith("n't"):
             first = [c for c in uncontract(w) if c[1] == "not"]
             toks.append(("V", lemmas[k], first[0][0] if first else w, k))
             toks.append(("Adv", "not", "not", k))
-        elif w == "can't" or w == "cannot":
+        elif w in ("can't", "cannot") and lemmas[k] == "cannot":
             toks.append(("V", "can", "cannot", k))
             toks.append(("Adv", "not", "not", k))
-        elif kinds[k] in ("Pro", "Q", "N") and w in contr_tbl.values() and uncontract(w) and "'" in w:
-            # subject/prefix + auxiliary: I'm, he's, what's, that'll ...
+        elif kinds[k] != "V" and "'" in w and w in contr_vals and w not in spec_words:
             toks.append((kinds[k], lemmas[k], w.split("'")[0], k))
-            toks.append(("Vc", None, [c[1] for c in uncontract(w)], k))
+            if k + 1 < main_end and kinds[k + 1] == "V" and not words[k + 1]:
+                # subject/prefix + auxiliary (I'm, he's, what's): the emptied auxiliary follows
+                toks.append(("V", lemmas[k + 1], sorted(set(c[1] for c in uncontract(w))), k))
         else:
             toks.append((kinds[k], lemmas[k], w, k))
-    # a verb emptied by a subject contraction follows as an empty realization: recover its lemma
-    empties = [k for k in range(main_end) if not words[k] and kinds[k] == "V"]
-    for t in range(len(toks)):
-        if toks[t][0] == "Vc":
-            k0 = toks[t][3]
-            nxt = [k for k in empties if k > k0]
-            lem = lemmas[nxt[0]] if nxt else None
-            if lem is None:
-                # the emptied token may have been removed by a later removeEmpty: identify by the candidates
-                lem = "?"
-            toks[t] = ("V", lem, toks[t][2], k0)
     exp_lemmas, exp_forms, exp_do = expected_group(spec, typ)
-    verbs = [t for t in toks if t[0] == "V" or (t[0] == "Q" and str(t[2]).startswith("[["))]
+    vpos = [k for k, t in enumerate(toks) if is_verbish(t)]
+    verbs = [toks[k] for k in vpos]
     got_lemmas = [t[1] for t in verbs]
     pe, num = subject_features(spec, typ)
-    # candidates for contracted auxiliaries: resolve "?" by the expected lemma when the candidate forms allow it
-    for j, t in enumerate(verbs):
-        if t[1] == "?" and j < len(exp_lemmas):
-            f = forms_of(exp_lemmas[j])
-            cands = set(t[2])
-            allf = set(x for key in ("p", "ps") for x in (f[key] or []) if x)
-            if cands & allf:
-                got_lemmas[j] = exp_lemmas[j]
-                verbs[j] = ("V", exp_lemmas[j], sorted(cands & allf), t[3])
-    has_do = len(got_lemmas) >= 2 and got_lemmas[0] == "do"
-    if got_lemmas != exp_lemmas:
-        if has_do != exp_do and sorted(got_lemmas) != sorted(exp_lemmas) and \
-                (got_lemmas[1:] == exp_lemmas or exp_lemmas[1:] == got_lemmas):
+    group_ok = got_lemmas == exp_lemmas
+    if not group_ok:
+        got_do = len(got_lemmas) >= 1 and got_lemmas[0] == "do" and (len(got_lemmas) < 2 or got_lemmas[1:] != exp_lemmas[1:] or not exp_do)
+        if (got_lemmas[1:] == exp_lemmas and got_lemmas[:1] == ["do"]) or (exp_do and exp_lemmas[1:] == got_lemmas):
             out.append(("do_support_iff", "verb group %r, the property prescribes %r" % (got_lemmas, exp_lemmas)))
         else:
             out.append(("verb_group_order", "verb group %r, the property prescribes %r" % (got_lemmas, exp_lemmas)))
     else:
-        # forms: first finite and agreeing, the others carry the affix of their predecessor
         for j, (t, lem, form) in enumerate(zip(verbs, exp_lemmas, exp_forms)):
             f = forms_of(lem)
             w = t[2]
@@ -379,106 +379,120 @@ def oracle_c04(spec, typ, notation, ans, raw):
             if form == "fin":
                 tense = {"p": "p", "ps": "ps", "f": "p", "c": "ps"}[spec["t"]]
                 cells = f[tense]
-                if not cells:
-                    continue
-                if i in ("wos", "was"):
-                    continue          # the subject is the question word: agreement left open by the property
+                if not cells or i in ("wos", "was"):
+                    continue          # defective verb (C01) / subject = the question word: left open by the property
                 want = cells[pe - 1 + (3 if num == "p" else 0)]
                 if want is None:
                     continue
-                if lem == "can" and cand == ["cannot"]:
-                    cand = ["can"] if tense == "p" else cand
+                if lem == "can" and cand == ["cannot"] and tense == "p":
+                    cand = ["can"]
                 if want not in cand:
-                    other = set(x for key in ("p", "ps") for x in (f[key] or []) if x)
-                    if set(cand) & other:
+                    finite = set(x for key in ("p", "ps") for x in (f[key] or []) if x)
+                    if set(cand) & finite:
                         out.append(("agreement", "first element %r, expected %r (pe=%s n=%s)" % (w, want, pe, num)))
                     else:
                         out.append(("only_first_finite", "first element %r is not a finite form of %s" % (w, lem)))
             else:
                 want = f[form]
-                if want is None:
-                    continue          # the verb has no such form (defective): C01's business
-                if want not in cand:
+                if want is not None and want not in cand:
                     out.append(("only_first_finite", "element %d is %r, expected the %s form %r" % (j, w, form, want)))
-        # `not` right after the first element (a fronted first element may be separated from it by the subject)
+        npos = [k for k, t in enumerate(toks) if t[0] == "Adv" and t[1] == "not"]
         if typ.get("neg"):
-            pos = [k for k, t in enumerate(toks) if t[0] == "Adv" and t[1] == "not"]
-            vpos = [k for k, t in enumerate(toks) if t[0] == "V" or (t[0] == "Q" and str(t[2]).startswith("[["))]
-            if len(pos) != 1:
-                out.append(("not_after_first", "%d occurrences of not" % len(pos)))
+            if len(npos) != 1:
+                out.append(("not_after_first", "%d occurrences of not" % len(npos)))
             elif vpos:
-                between = toks[vpos[0] + 1:pos[0]]
-                if pos[0] < vpos[0] or any(t[0] in ("V", "P", "Adv") for t in between):
-                    out.append(("not_after_first", "not is at %d, first verb at %d" % (pos[0], vpos[0])))
-        else:
-            if any(t[0] == "Adv" and t[1] == "not" for t in toks):
-                out.append(("not_after_first", "not without neg"))
+                between = toks[vpos[0] + 1:npos[0]]
+                if npos[0] < vpos[0] or any(t[0] in ("V", "P", "Adv") or is_verbish(t) for t in between):
+                    out.append(("not_after_first", "not is at %d, the first verb at %d" % (npos[0], vpos[0])))
+        elif npos:
+            out.append(("not_after_first", "not without neg"))
     # ---- word order: prefix, fronting, dropped constituent, passive swap
-    seqw = [t[2] if not isinstance(t[2], list) else "'" for t in toks]
+    seqw = [t[2] if isinstance(t[2], str) else "'" for t in toks]
     subj_arg = spec["subj"]
     obj_arg = spec.get("obj")
     new_subj = obj_arg if typ.get("pas") else subj_arg
+    first_v = vpos[0] if vpos else None
+    last_v = vpos[-1] if vpos else None
 
-    def find_sub(cands, start=0):
+    def find_sub(cands, lo=0, hi=None):
+        hi = len(seqw) if hi is None else hi
         for c in cands:
-            for k in range(start, len(seqw) - len(c) + 1):
+            for k in range(lo, hi - len(c) + 1):
                 if seqw[k:k + len(c)] == c:
-                    return k, len(c)
+                    return k
         return None
-    vidx = [k for k, t in enumerate(toks) if t[0] == "V" or (t[0] == "Q" and str(t[2]).startswith("[["))]
-    first_v = vidx[0] if vidx else None
     if typ.get("pas") and obj_arg is not None:
-        sp = None if i in ("wos", "was") else find_sub(arg_words(obj_arg)[:1])
         if i not in ("wos", "was", "wod", "wad"):
-            if sp is None or (first_v is not None and i in (None, "tag") and sp[0] > first_v):
+            # the promoted object stands where a subject stands: before the main verb, in its nominative form
+            if find_sub(arg_words(obj_arg)[:1], 0, last_v) is None:
                 out.append(("passive_swap", "the object is not the subject of the passive"))
         by = [k for k, t in enumerate(toks) if t[0] == "P" and t[2] == "by"]
-        prefixed_by = i in ("woi", "wai") and seqw and seqw[0] == "by"
-        if not by and not prefixed_by:
+        prefixed_by = i in ("woi", "wai") and seqw[:1] == ["by"]
+        if prefixed_by:
+            pass          # the by-phrase itself is what is questioned
+        elif not by:
             out.append(("passive_swap", "no by-phrase"))
-        elif by:
-            ok = any(seqw[by[-1] + 1:by[-1] + 1 + len(c)] == c for c in arg_words(subj_arg)) or \
-                 any(seqw[b + 1:b + 1 + len(c)] == c for b in by for c in arg_words(subj_arg))
-            if not ok:
-                out.append(("passive_swap", "by is not followed by the demoted subject"))
+        elif not any(seqw[b + 1:b + 1 + len(c)] == c for b in by for c in arg_words(subj_arg)):
+            out.append(("passive_swap", "by is not followed by the demoted subject"))
     if i and i != "tag":
         pref = D["int_prefix"].get(i, "")
+        head = raw[0][2].strip().rstrip("?! ") if raw else ""
+        removed_prep = None
         if i != "yon":
-            head = raw[0][2].strip() if raw else ""
             allowed = {pref}
             if i == "wod":
                 allowed.add("whom")
             if i in ("woi", "wai"):
-                allowed |= {p["prep"] + " " + ("whom" if i == "woi" else "what") for p in spec.get("pps", [])}
-                if typ.get("pas"):
-                    allowed.add("by " + ("whom" if i == "woi" else "what"))
-            if raw[0][0] != "Q" or head.rstrip("?! ") not in allowed:
-                if not (typ.get("contr") and head.split("'")[0] in allowed):
-                    out.append(("interrogative_fronting", "the clause starts with %r, expected %r" % (head, sorted(allowed))))
+                wh = "whom" if i == "woi" else "what"
+                for p in [q["prep"] for q in spec.get("pps", [])] + (["by"] if typ.get("pas") else []):
+                    allowed.add(p + " " + wh)
+            h = head
+            if typ.get("contr") and "'" in h.split(" ")[-1] and h.split(" ")[-1] in contr_vals:
+                h = h[:h.rindex("'")]
+            if not raw or raw[0][0] != "Q" or h not in allowed:
+                out.append(("interrogative_fronting", "the clause starts with %r, expected one of %r" % (head, sorted(allowed))))
+            elif i in ("woi", "wai") and h != pref:
+                removed_prep = h.split(" ")[0]
         if i in ("wos", "was"):
-            sp = find_sub(arg_words(new_subj)) if new_subj is not None else None
-            # the questioned subject must be gone (a by-phrase with the same words does not count)
-            if sp is not None and (first_v is None or sp[0] < first_v):
+            # the questioned subject is gone (the same words inside a by-phrase or an object do not count)
+            if new_subj is not None and first_v is not None and find_sub(arg_words(new_subj), 0, first_v) is not None:
                 out.append(("questioned_constituent_dropped", "the subject is still there"))
-        else:
-            # the first element of the verb group precedes the subject
-            sp = find_sub(arg_words(new_subj)[:1]) if new_subj is not None else find_sub([["it"]])
-            if sp is not None and first_v is not None and first_v > sp[0] and got_lemmas == exp_lemmas:
+        elif group_ok and first_v is not None:
+            sw = arg_words(new_subj)[:1] if new_subj is not None else [["it"]]
+            sp = find_sub(sw, 0, last_v)
+            if sp is not None and first_v > sp:
                 out.append(("interrogative_fronting", "the subject precedes the first element of the verb group"))
-        if i in ("wod", "wad") and obj_arg is not None:
-            if find_sub(arg_words(obj_arg)) is not None:
-                out.append(("questioned_constituent_dropped", "the direct object is still there"))
+        if i in ("wod", "wad") and obj_arg is not None and last_v is not None:
+            ow = arg_words(obj_arg)
+            if typ.get("pas"):
+                if find_sub(ow[:1], 0, last_v) is not None:
+                    out.append(("questioned_constituent_dropped", "the (promoted) direct object is still there"))
+            else:
+                # the object's place: after the main verb (and a subject that follows a fronted main verb), before
+                # the first preposition
+                lo = last_v + 1
+                for c in arg_words(subj_arg)[:1]:
+                    if seqw[lo:lo + len(c)] == c:
+                        lo += len(c)
+                if lo < len(toks) and toks[lo][0] == "Adv":
+                    lo += 1
+                pk = [k for k in range(lo, len(toks)) if toks[k][0] == "P"]
+                if find_sub(ow, lo, pk[0] if pk else None) is not None:
+                    out.append(("questioned_constituent_dropped", "the direct object is still there"))
         if i in ("woi", "wai", "whe", "whn"):
             pl = D["consts"]["prepositionList"]
-            key = {"whe": "whe", "whn": "whn"}.get(i, "all")
             have = [p["prep"] for p in spec.get("pps", [])] + (["by"] if typ.get("pas") else [])
-            qual = [p for p in have if p in pl[key]]
             left = [t[2] for t in toks[1:] if t[0] == "P"]
-            if qual and len(left) != len(have) - 1:
-                out.append(("questioned_constituent_dropped", "prepositional phrases left: %r of %r" % (left, have)))
-            if not qual and len(left) != len(have):
-                out.append(("questioned_constituent_dropped", "prepositional phrases left: %r of %r" % (left, have)))
-    # one failure per clause
+            gone = list(have)
+            for p in left:
+                if p in gone:
+                    gone.remove(p)
+            key = {"whe": "whe", "whn": "whn"}.get(i, "all")
+            if len(left) + len(gone) != len(have) or len(gone) > 1 or any(p not in pl[key] for p in gone):
+                out.append(("questioned_constituent_dropped", "prepositional phrases %r became %r" % (have, left)))
+            elif i in ("woi", "wai") and gone != ([removed_prep] if removed_prep else []) and \
+                    not (gone and head == gone[0] + " " + ("whom" if i == "woi" else "what")):
+                out.append(("questioned_constituent_dropped", "prefix %r but the phrases removed are %r" % (head, gone)))
     seen = set()
     res = []
     for c, dt in out:
@@ -490,11 +504,19 @@ def oracle_c04(spec, typ, notation, ans, raw):
 
 # --------------------------------------------------------------------------------------------- evaluation, shrinking
 
-def subj_desc(a):
+def subj_desc(a, role="subj"):
+    """class of an argument; a lexical item that survived shrinking (it could not be replaced by the first of its
+    class without losing the failure) is part of the class"""
     if a is None:
         return "none"
     if a["k"] == "np":
-        return "np:" + a["n"] + (":" + data()["nouns"][a["noun"]]["g"] if data()["nouns"][a["noun"]]["g"] != "n" else "")
+        g = data()["nouns"][a["noun"]]["g"]
+        d = "np:" + a["n"] + (":" + g if g != "n" else "")
+        if a["noun"] not in ("cat", "mouse", "house", "man", "woman", "child"):
+            d += ":noun=" + a["noun"]
+        if a["det"] != "the":
+            d += ":det=" + a["det"]
+        return d
     return "pro:%d%s%s" % (a["pe"], a["n"], a["g"] if (a["pe"] == 3 and a["n"] == "s") else "")
 
 
@@ -545,9 +567,45 @@ def c08_kind(a, b):
     return "text"
 
 
+CANON_NOUN = {"m": "man", "f": "woman", "x": "child"}
+
+
+def canon_arg(a, role, keep_gender=True):
+    if a is None:
+        return None
+    if a["k"] == "np":
+        g = data()["nouns"][a["noun"]]["g"]
+        noun = {"subj": "cat", "obj": "mouse", "pp": "house"}[role]
+        if keep_gender and g in CANON_NOUN:
+            noun = CANON_NOUN[g]
+        return np_(noun, a["n"])
+    return a
+
+
+def canon_spec(spec, keep_gender=True, keep_prep=True):
+    """every lexical item replaced by the first of its class (verb: lemma class; noun: gender class; determiner: the;
+    preposition: membership class in preposition_list)"""
+    v = spec["verb"]
+    s2 = dict(spec)
+    s2["verb"] = v if v in CLOSED else "eat"
+    s2["subj"] = canon_arg(spec["subj"], "subj", keep_gender)
+    s2["obj"] = canon_arg(spec.get("obj"), "obj", keep_gender)
+    pps = []
+    for pp in spec.get("pps", []):
+        base = {"a": "with", "aw": "in", "an": "after", "awn": "before", "w": "via", "-": "out"}[prep_class(pp["prep"])]
+        pps.append({"prep": base if keep_prep else "in", "arg": canon_arg(pp["arg"], "pp", keep_gender)})
+    s2["pps"] = pps
+    return s2
+
+
 def shrink_candidates(spec, typ):
-    """smaller inputs, simplest first: drop a flag, drop a complement, simpler lexical items"""
+    """smaller inputs, simplest first: all lexical items at once by the first of their class, drop a flag, drop a
+    complement, simpler flag values, then single lexical items"""
     t = typ_clean(typ)
+    for kg, kp in ((False, False), (True, False), (True, True)):
+        c = canon_spec(spec, kg, kp)
+        if c != spec:
+            yield c, t
     for k in sorted(t):
         t2 = dict(t)
         del t2[k]
@@ -565,42 +623,51 @@ def shrink_candidates(spec, typ):
         s2 = dict(spec)
         s2["t"] = "p"
         yield s2, t
-    # lexical items: the first of their class
+    # a flag value: the first of its group, then the simplest value
+    if t.get("int"):
+        for g in INT_GROUPS:
+            if t["int"] in g:
+                for v in [g[0], "yon"]:
+                    if v != t["int"]:
+                        t2 = dict(t)
+                        t2["int"] = v
+                        yield spec, t2
+    if t.get("mod") and t["mod"] != "poss":
+        t2 = dict(t)
+        t2["mod"] = "poss"
+        yield spec, t2
+    # single lexical items
     v = spec["verb"]
-    first = v if v in CLOSED else "eat"
-    if v != first:
-        s2 = dict(spec)
-        s2["verb"] = first
-        yield s2, t
+    for first in ["eat", "can" if v in MODALS else (v if v in CLOSED else "eat")]:
+        if v != first:
+            s2 = dict(spec)
+            s2["verb"] = first
+            yield s2, t
     for role in ("subj", "obj"):
         a = spec.get(role)
         if not a:
             continue
-        simpler = []
+        noun = "cat" if role == "subj" else "mouse"
+        simpler = [np_(noun, "s")]
         if a["k"] == "np":
-            base = np_("cat" if role == "subj" else "mouse", a["n"])
-            if a != base:
-                simpler.append(base)
-            if a["n"] == "p":
-                simpler.append(np_("cat" if role == "subj" else "mouse", "s"))
+            simpler += [np_(noun, a["n"]), canon_arg(a, role), np_(a["noun"], a["n"])]
         else:
-            if (a["pe"], a["n"], a["g"]) != (3, "s", "n"):
-                simpler.append(pro_(3, "s", "n"))
-            if a["g"] != "n":
-                simpler.append(pro_(a["pe"], a["n"], "n"))
-            if a["n"] == "p":
-                simpler.append(pro_(a["pe"], "s", a["g"]))
+            simpler += [np_(noun, a["n"]), pro_(3, "s", "n"), pro_(a["pe"], "s", "n"), pro_(a["pe"], a["n"], "n"), pro_(a["pe"], "s", a["g"])]
+        seen = []
         for b in simpler:
-            s2 = dict(spec)
-            s2[role] = b
-            yield s2, t
+            if b != a and b not in seen:
+                seen.append(b)
+                s2 = dict(spec)
+                s2[role] = b
+                yield s2, t
     for j, pp in enumerate(spec.get("pps", [])):
-        base = {"prep": {"a": "with", "aw": "in", "an": "after", "awn": "before", "w": "via", "-": "out"}.get(prep_class(pp["prep"]), pp["prep"]),
-                "arg": np_("house", "s")}
-        if pp != base and prep_class(base["prep"]) == prep_class(pp["prep"]):
-            s2 = dict(spec)
-            s2["pps"] = spec["pps"][:j] + [base] + spec["pps"][j + 1:]
-            yield s2, t
+        base = {"a": "with", "aw": "in", "an": "after", "awn": "before", "w": "via", "-": "out"}[prep_class(pp["prep"])]
+        for b in ({"prep": "in", "arg": np_("house", "s")}, {"prep": base, "arg": np_("house", "s")},
+                  {"prep": pp["prep"], "arg": np_("house", "s")}, {"prep": base, "arg": pp["arg"]}):
+            if pp != b:
+                s2 = dict(spec)
+                s2["pps"] = spec["pps"][:j] + [b] + spec["pps"][j + 1:]
+                yield s2, t
 
 
 class Shrinker:
@@ -640,11 +707,15 @@ def signature(fail, spec, typ):
     prop, nota, clause = fail
     t = typ_clean(typ)
     flags = ",".join("%s=%s" % (k, t[k]) if not isinstance(t[k], bool) else k for k in sorted(t))
-    pps = "+".join(prep_class(p["prep"]) for p in spec.get("pps", [])) or "0"
+    canon_prep = {"a": "with", "aw": "in", "an": "after", "awn": "before", "w": "via", "-": "out"}
+    pps = "+".join(prep_class(p["prep"]) + ("" if p["prep"] == canon_prep[prep_class(p["prep"])] else ":" + p["prep"])
+                   + ("" if p["arg"] == np_("house", "s") else "(" + subj_desc(p["arg"]) + ")")
+                   for p in spec.get("pps", [])) or "0"
+    vcls = verb_class(spec["verb"]) + ("" if spec["verb"] in CLOSED + ["eat"] else ":" + spec["verb"])
     head = "en|%s|%s" % ("phrase+dep" if nota == "both" else nota, clause)
     if prop == "C08":
         head = "C08-" + head
-    return "%s|t=%s|%s|v=%s|s=%s|o=%s|pp=%s" % (head, spec["t"], flags or "-", verb_class(spec["verb"]),
+    return "%s|t=%s|%s|v=%s|s=%s|o=%s|pp=%s" % (head, spec["t"], flags or "-", vcls,
                                               subj_desc(spec["subj"]), subj_desc(spec.get("obj")), pps)
 
 
@@ -791,8 +862,8 @@ def sweep(ctx, want=("C04", "C08"), label="clause"):
         for v in PANEL:
             for sj in SUBJECTS:
                 tasks.append(("product", (v, sj), ctx.driver, want))
-        for k in range(64):
-            tasks.append(("sample", (ctx.rng.getrandbits(48), 2500, True), ctx.driver, want))
+        for k in range(48):
+            tasks.append(("sample", (ctx.rng.getrandbits(48), 2000, True), ctx.driver, want))
         ctx.exhaustive = True
         ctx.notes["exhaustive_scope"] = ("4 tenses x 6 mod x perf x prog x pas x neg x contr x 14 int, for each of the %d panel verbs "
                                          "x %d subjects (object of the opposite number, one prepositional complement), both notations"
